@@ -16,7 +16,7 @@
 #![allow(dead_code)]
 #[path = "c05.rs"]
 mod c05gen;
-use c05gen::{case_term, compile, gen_random, gen_straddle, gen_wide, corpus, Dag, Outcome};
+use c05gen::{case_term, compile, gen_random, gen_straddle, gen_two_spaces, gen_wide, corpus, Dag, Outcome};
 use serde_json::json;
 use std::collections::BTreeMap;
 use std::sync::{Arc, Barrier};
@@ -36,6 +36,208 @@ enum Job {
     Gvar(u64),
     BuildFont(usize),
     Subset(usize, u32),
+    /// layout builders that collect into hash containers (kind, variant)
+    Builder(&'static str, u32),
+    /// real GSUB: big single-subst lookups pairwise sharing a coverage, all promoted to extensions:
+    /// several 32-bit spaces overflow in the same isolation round
+    SharedCovGsub(u16),
+}
+
+/// jobs whose code paths iterate freshly created hash containers: repeated >= 32 times in one process
+fn hash_sensitive(j: &Job) -> bool {
+    match j {
+        Job::Builder(..) | Job::SharedCovGsub(_) | Job::Ivs(_) | Job::Gvar(_) | Job::BigGpos(..) | Job::SplitGpos(..) => true,
+        Job::Dag(d) => d.has_width(4) && d.nodes.len() <= 12 && d.nodes[0].iter().filter(|i| matches!(i, c05gen::Item::Link(4, _))).count() >= 4,
+        _ => false,
+    }
+}
+
+fn builder_job(kind: &str, v: u32) -> Vec<u8> {
+    use write_fonts::read::collections::IntSet;
+    use write_fonts::tables::gpos::builders::{
+        AnchorBuilder, CursivePosBuilder, MarkToBaseBuilder, MarkToLigBuilder, MarkToMarkBuilder, PairPosBuilder,
+        SinglePosBuilder, ValueRecordBuilder,
+    };
+    use write_fonts::tables::gpos::{Gpos, PositionLookup};
+    use write_fonts::tables::layout::builders::{Builder, ClassDefBuilder, CoverageTableBuilder};
+    use write_fonts::tables::layout::{FeatureList, Lookup, LookupFlag, LookupList, ScriptList};
+    use write_fonts::tables::variations::ivs_builder::VariationStoreBuilder;
+    use write_fonts::types::GlyphId16;
+    let g = GlyphId16::new;
+    let gset = |it: &mut dyn Iterator<Item = u16>| -> IntSet<GlyphId16> {
+        let mut s = IntSet::empty();
+        for x in it {
+            s.insert(g(x));
+        }
+        s
+    };
+    let mut vs = VariationStoreBuilder::new(0);
+    let gpos_of = |lookups: Vec<PositionLookup>| -> Vec<u8> {
+        let t = Gpos::new(ScriptList::default(), FeatureList::default(), LookupList::new(lookups));
+        dump_table(&t).unwrap_or_else(|e| err_bytes("builder", e))
+    };
+    match kind {
+        // equal-sized subtables whose coverages are runs of consecutive glyph ids (range coverages)
+        "singlepos_runs" => {
+            let runs: &[(u16, u16, i16)] = match v {
+                0 => &[(10, 19, 5), (40, 49, -7)],
+                1 => &[(10, 19, 5), (40, 49, -7), (70, 79, 11), (100, 109, -13), (200, 211, 17), (300, 309, 19)],
+                _ => &[(1000, 1031, 1), (5, 36, 2), (500, 531, 3), (100, 131, 4), (300, 331, 5), (2000, 2031, 6), (700, 731, 7), (900, 931, 8)],
+            };
+            let mut b = SinglePosBuilder::default();
+            for (a, z, adv) in runs {
+                for gid in *a..=*z {
+                    b.insert(g(gid), ValueRecordBuilder::new().with_x_advance(*adv));
+                }
+            }
+            gpos_of(vec![PositionLookup::Single(Lookup::new(LookupFlag::empty(), b.build(&mut vs)))])
+        }
+        // equal-sized subtables with scattered (glyph-array) coverages and mixed value formats
+        "singlepos_mixed" => {
+            let mut b = SinglePosBuilder::default();
+            for k in 0..8u16 {
+                for j in 0..6u16 {
+                    let gid = 7 + k * 3 + j * 101 + (v as u16) * 2;
+                    let rec = match k % 4 {
+                        0 => ValueRecordBuilder::new().with_x_advance(k as i16 + 1),
+                        1 => ValueRecordBuilder::new().with_y_advance(k as i16 + 1),
+                        2 => ValueRecordBuilder::new().with_x_placement(k as i16 + 1),
+                        _ => ValueRecordBuilder::new().with_x_placement(1).with_x_advance(k as i16),
+                    };
+                    b.insert(g(gid), rec);
+                }
+            }
+            gpos_of(vec![PositionLookup::Single(Lookup::new(LookupFlag::empty(), b.build(&mut vs)))])
+        }
+        // several value-format groups of equal size; glyph pairs and class pairs
+        "pairpos" => {
+            let mut b = PairPosBuilder::default();
+            for k in 0..6u16 {
+                for j in 0..5u16 {
+                    let (r1, r2) = match k % 3 {
+                        0 => (ValueRecordBuilder::new().with_x_advance(j as i16 + 1), ValueRecordBuilder::new()),
+                        1 => (ValueRecordBuilder::new().with_y_advance(j as i16 + 1), ValueRecordBuilder::new()),
+                        _ => (ValueRecordBuilder::new().with_x_advance(3), ValueRecordBuilder::new().with_x_placement(j as i16 + 1)),
+                    };
+                    b.insert_pair(g(20 + k * 10 + v as u16), r1, g(300 + j * 7 + k), r2);
+                }
+            }
+            for k in 0..5u16 {
+                let c1 = gset(&mut (0..4u16).map(|j| 1000 + k * 20 + j));
+                for j in 0..3u16 {
+                    let c2 = gset(&mut (0..3u16).map(|i| 2000 + j * 10 + i));
+                    let r1 = if k % 2 == 0 { ValueRecordBuilder::new().with_x_advance((k + j) as i16 + 1) } else { ValueRecordBuilder::new().with_y_advance((k + j) as i16 + 1) };
+                    b.insert_classes(c1.clone(), r1, c2, ValueRecordBuilder::new());
+                }
+            }
+            gpos_of(vec![PositionLookup::Pair(Lookup::new(LookupFlag::empty(), b.build(&mut vs)))])
+        }
+        "marktobase" => {
+            let mut b = MarkToBaseBuilder::default();
+            let classes = ["top", "bottom", "ogonek", "ring", "horn", "cedilla"];
+            for (ci, c) in classes.iter().enumerate() {
+                for j in 0..4u16 {
+                    let _ = b.insert_mark(g(400 + ci as u16 * 10 + j), c, AnchorBuilder::new(j as i16, ci as i16 * 10));
+                }
+            }
+            for bg in 0..12u16 {
+                for (ci, c) in classes.iter().enumerate() {
+                    if (bg as usize + ci + v as usize) % 3 != 0 {
+                        b.insert_base(g(30 + bg * 2), c, AnchorBuilder::new(100 + bg as i16, ci as i16));
+                    }
+                }
+            }
+            gpos_of(vec![PositionLookup::MarkToBase(Lookup::new(LookupFlag::empty(), b.build(&mut vs)))])
+        }
+        "marktomark" => {
+            let mut b = MarkToMarkBuilder::default();
+            let classes = ["top", "bottom", "side", "above2", "below2"];
+            for (ci, c) in classes.iter().enumerate() {
+                for j in 0..3u16 {
+                    let _ = b.insert_mark1(g(400 + ci as u16 * 10 + j), c, AnchorBuilder::new(j as i16, ci as i16));
+                }
+            }
+            for m2 in 0..9u16 {
+                for (ci, c) in classes.iter().enumerate() {
+                    if (m2 as usize + ci + v as usize) % 2 == 0 {
+                        b.insert_mark2(g(600 + m2), c, AnchorBuilder::new(m2 as i16, ci as i16 + 5));
+                    }
+                }
+            }
+            gpos_of(vec![PositionLookup::MarkToMark(Lookup::new(LookupFlag::empty(), b.build(&mut vs)))])
+        }
+        "marktolig" => {
+            let mut b = MarkToLigBuilder::default();
+            let classes = ["top", "bottom", "mid", "hook"];
+            for (ci, c) in classes.iter().enumerate() {
+                for j in 0..3u16 {
+                    let _ = b.insert_mark(g(400 + ci as u16 * 10 + j), c, AnchorBuilder::new(j as i16, ci as i16));
+                }
+            }
+            for lg in 0..8u16 {
+                for (ci, c) in classes.iter().enumerate() {
+                    let comps = (0..3).map(|k| if (k + ci + lg as usize + v as usize) % 3 == 0 { None } else { Some(AnchorBuilder::new(k as i16 * 10, lg as i16)) }).collect();
+                    b.insert_ligature(g(800 + lg), c, comps);
+                }
+            }
+            gpos_of(vec![PositionLookup::MarkToLig(Lookup::new(LookupFlag::empty(), b.build(&mut vs)))])
+        }
+        "cursive" => {
+            let mut b = CursivePosBuilder::default();
+            for k in 0..20u16 {
+                let e = if k % 3 == 0 { None } else { Some(AnchorBuilder::new(k as i16, 1)) };
+                let x = if k % 4 == 0 { None } else { Some(AnchorBuilder::new(2, k as i16 + v as i16)) };
+                b.insert(g(50 + k * 3), e, x);
+            }
+            gpos_of(vec![PositionLookup::Cursive(Lookup::new(LookupFlag::empty(), b.build(&mut vs)))])
+        }
+        // equal-sized classes: the class ids depend on the builder's ordering
+        "classdef" => {
+            let mut b = if v % 2 == 0 { ClassDefBuilder::new() } else { ClassDefBuilder::new_using_class_0() };
+            for k in 0..10u16 {
+                let cls = gset(&mut (0..4u16).map(|j| 100 + ((k * 37) % 10) * 50 + j * 3));
+                b.checked_add(cls);
+            }
+            let (cd, map) = b.build_with_mapping();
+            let mut out = dump_table(&cd).unwrap_or_else(|e| err_bytes("classdef", e));
+            let mut m: Vec<(Vec<u16>, u16)> = map.into_iter().map(|(s, id)| (s.iter().map(|x| x.to_u16()).collect(), id)).collect();
+            m.sort();
+            for (s, id) in m {
+                out.extend_from_slice(&s[0].to_be_bytes());
+                out.extend_from_slice(&id.to_be_bytes());
+            }
+            out
+        }
+        "coverage" => {
+            let mut b = CoverageTableBuilder::from_glyphs((0..40u32).map(|k| g(((k * 7919 + v * 13) % 997) as u16)).collect());
+            let mut out = vec![];
+            for k in [5u16, 900, 17, 400] {
+                out.extend_from_slice(&b.add(g(k)).to_be_bytes());
+            }
+            out.extend(dump_table(&b.build()).unwrap_or_else(|e| err_bytes("coverage", e)));
+            out
+        }
+        _ => unreachable!(),
+    }
+}
+
+fn shared_cov_gsub(pairs: u16) -> Vec<u8> {
+    use write_fonts::tables::gsub::{Gsub, SingleSubst, SubstitutionLookup};
+    use write_fonts::tables::layout::{CoverageTable, Lookup, LookupFlag, LookupList};
+    use write_fonts::types::GlyphId16;
+    let big = |n: u16, delta: u16| -> SubstitutionLookup {
+        let coverage: CoverageTable = (0..n).map(|i| GlyphId16::new(2 * i + 1)).collect();
+        let subs = (0..n).map(|i| GlyphId16::new(2 * i + 1 + delta)).collect();
+        SubstitutionLookup::Single(Lookup::new(LookupFlag::empty(), vec![SingleSubst::format_2(coverage, subs)]))
+    };
+    let mut lookups = vec![];
+    for p in 0..pairs {
+        let n = 16_420 - 20 * p;
+        lookups.push(big(n, 1 + 4 * p));
+        lookups.push(big(n, 3 + 4 * p));
+    }
+    let t = Gsub::new(Default::default(), Default::default(), LookupList::new(lookups));
+    dump_table(&t).unwrap_or_else(|e| err_bytes("sharedcov", e))
 }
 
 fn fonts() -> Vec<(&'static str, &'static [u8])> {
@@ -201,6 +403,8 @@ fn run_job(job: &Job) -> Result<Vec<u8>, String> {
             b.copy_missing_tables(font);
             b.build()
         }
+        Job::Builder(kind, v) => builder_job(kind, *v),
+        Job::SharedCovGsub(pairs) => shared_cov_gsub(*pairs),
         Job::Subset(fi, pick) => {
             use klippa::{subset_font, Plan, SubsetFlags};
             use write_fonts::read::collections::IntSet;
@@ -242,6 +446,8 @@ fn job_name(j: &Job) -> String {
         Job::Gvar(s) => format!("gvar:{s}"),
         Job::BuildFont(f) => format!("fontbuilder:{}", fonts()[*f].0),
         Job::Subset(f, p) => format!("subset:{}:{}", fonts()[*f].0, p),
+        Job::Builder(k, v) => format!("builder:{k}:{v}"),
+        Job::SharedCovGsub(p) => format!("sharedcovgsub:{p}"),
     }
 }
 
@@ -282,6 +488,18 @@ fn make_jobs(seed: u64, thorough: bool) -> Vec<Job> {
         for p in 0..(if thorough { 6 } else { 2 }) {
             jobs.push(Job::Subset(fi, 11 + 7 * p));
         }
+    }
+    for k in ["singlepos_runs", "singlepos_mixed", "pairpos", "marktobase", "marktomark", "marktolig", "cursive", "classdef", "coverage"] {
+        for v in 0..3 {
+            jobs.push(Job::Builder(k, v));
+        }
+    }
+    jobs.push(Job::SharedCovGsub(2)); // two two-root spaces overflowing in the same round
+    if thorough {
+        jobs.push(Job::SharedCovGsub(3));
+    }
+    for _ in 0..(if thorough { 12 } else { 4 }) {
+        jobs.push(Job::Dag(gen_two_spaces(&mut rng)));
     }
     jobs.push(Job::BigGpos(6, 1, 165)); // extension promotion (as in graph.rs tests)
     jobs.push(Job::BigGpos(1, 1, 400));
@@ -388,6 +606,24 @@ fn main() {
         }
     }
 
+    // (b2) hash-sensitive jobs (builders and packer paths that create hash containers per call: std RandomState
+    //      differs per container instance): >= 32 repetitions each in this process
+    for i in 0..n {
+        if !hash_sensitive(&jobs[i]) {
+            continue;
+        }
+        st.count("experiment.hash_sensitive_jobs");
+        for rep in 0..32 {
+            let d = digest(&run_job(&jobs[i]));
+            st.evaluations += 1;
+            st.count("experiment.repeat32");
+            if d != reference[i] {
+                note(job_name(&jobs[i]), format!("repetition {rep} in one process: {} vs reference {}", d, reference[i]), &mut disagreements);
+                break;
+            }
+        }
+    }
+
     // (c) threads with randomised start barriers
     for &t in &[1usize, 2, 3, 4, 8, 16] {
         let reps = if thorough { 4 } else { 2 };
@@ -490,9 +726,9 @@ fn main() {
                 let (mix, lab) = (rng.below(4) as u32, rng.chance(9, 10));
                 gen_random(&mut rng, nn, 1, mix, lab)
             }
-            _ => gen_wide(&mut rng),
+            _ => if k % 16 == 3 { gen_two_spaces(&mut rng) } else { gen_wide(&mut rng) },
         };
-        if d.expansion() > 300 || d.expansion_bytes() > 400_000 || d.misuse_width() {
+        if d.expansion() > 300 || (d.expansion_bytes() > 400_000 && k % 16 != 3) || d.misuse_width() {
             continue;
         }
         burn(&mut rng, (k % 5) as usize);
